@@ -36,6 +36,23 @@ CLAIMS = {
             "Calling protocol of the group-by (one Poll per trigger event). Counting clause checked on zero-event-time streams (where the trigger sees "
             "records on arrival). Trusted: harness drivers, TLC.", "TLA+ spec + TLC history export replayed on real triggers/group-by + TLC trace validation",
             "DESIGN.md 6/C17"),
+    "C15": ("model_checking",
+            "Ops.tla gives every operator an implementation-shaped step function (Layer I) and a batch meaning on the consolidated input (Layer P). "
+            "TLC checks for every valid input changelog up to MaxLen per operator configuration that the output never retracts an absent row in any "
+            "prefix and that its consolidation equals the operator applied to the consolidated input; the exported scripts and random long "
+            "changelogs are run on the real nodes (filter, map, distinct, event-time buffer, simple/custom group by; joins via StreamJoin.tla) and "
+            "every trace is validated by TLC against the same monitor.",
+            "Valid input changelogs (also in event-time order). Predicates/projections are harness expressions (column = constant, column lists). "
+            "Trusted: scripted source, value mapping, TLC.", "TLA+ spec + TLC bounded-exhaustive script export replayed on real nodes + TLC trace validation",
+            "DESIGN.md 6/C15"),
+    "C18": ("model_checking",
+            "The C18 clauses of the Layer-P monitor (non-decreasing forwarded watermarks; no output record with a non-zero event time at or below an "
+            "already forwarded watermark given non-late input; event-time buffer releases every record unchanged, in event-time order, before the first "
+            "watermark at or above it and the rest at end of stream) are model-checked on the Layer-I operator models and evaluated by TLC on traces of "
+            "the real nodes for exhaustive small and random scripts.",
+            "Inputs without late records, strictly increasing watermarks. Time-keyed group-bys get records with event time <= key time. One recorded "
+            "finding (known_findings.jsonl).", "TLA+ spec + TLC bounded-exhaustive script export replayed on real nodes + TLC trace validation",
+            "DESIGN.md 6/C18"),
 }
 
 NA_DEFAULT = "check not built yet (work in progress; will be claimed once its TLA+ spec and conformance harness are committed)"
